@@ -176,8 +176,19 @@ def run_selftest(prop, repo, jobs=None):
     jobs = jobs or min(16, os.cpu_count() or 4)
     with concurrent.futures.ProcessPoolExecutor(max_workers=jobs) as ex:
         results = list(ex.map(_job, [(prop, repo, vid) for vid in mine], chunksize=2))
+    try:
+        import json as _json
+        survives = _json.load(open(os.path.join(os.path.dirname(os.path.abspath(__file__)), 'variants_vs_tests.json')))
+    except Exception:
+        survives = {}
+    res['applied_that_keep_the_pinned_suite_green'] = 0
+    res['detected_that_keep_the_pinned_suite_green'] = 0
     for vid, status, code, lines in results:
         v = VARIANTS[vid]
+        if status != 'inapplicable' and v['kind'] != 'benign' and survives.get(vid) == 'tests-pass':
+            res['applied_that_keep_the_pinned_suite_green'] += 1
+            if code == 1:
+                res['detected_that_keep_the_pinned_suite_green'] += 1
         if status == 'inapplicable':
             res['inapplicable'].append(vid)
             continue
